@@ -21,7 +21,7 @@ ASSUME = [
     "Go runtime panics of the reader path are modelled as partiality points (restore_doc / matrix_doc returning None); memory exhaustion and "
     "goroutine leaks are observed by the worker's watchdog (10 s without progress = HANG) and GOMEMLIMIT, not modelled",
     "chunks larger than the model's evaluation cap (200000 values) are skipped by the driver (counted as skipped_huge); the theorems use no cap",
-    "a sample document with a binary subtype 0x06..0x7f is refused by the reader's validator (read.go), hence C04_bridge assumes doc_bin_ok",
+    "a document with a binary subtype 0x06..0x7f is refused by the reader's validator (read.go) and is outside the model's well-formedness predicate doc_ok",
 ]
 
 
